@@ -5,9 +5,11 @@ C05 — required, nullable and default semantics of each member are carried over
 Every theorem quantifies over ALL vectors `v : Vec` of the abstract space
   kind (5) × way the schema admits null (3) × listed in `required` × default class (9) ×
   member type (3) × has constraint keyword × {strict-nullable, use-default, force-optional,
-  strip-default-none, use-annotated, field-constraints}
+  strip-default-none, use-annotated, field-constraints} × where the `required` entry is written
+  (own list / allOf sibling item / schema owning the allOf) × kind of JSON name (plain /
+  needs alias / keyword / camelCase) × snake-case-field
 restricted to `v.valid` (the default fits the type, dict members carry no constraint keyword,
-`use_annotated` needs `field_constraints`). `sem v` is the authored meaning, in the target library,
+`use_annotated` needs `field_constraints`, the allOf forms are built for listed members only). `sem v` is the authored meaning, in the target library,
 of the member that the model renders for `v` through the class template table regenerated from the
 Jinja sources (`Dcg.Gen.FieldTemplates`).
 
@@ -36,6 +38,38 @@ theorem typeddict_function_template_agrees : typedDictFunctionAgrees = true := b
 decision makes this theorem — and with it every theorem below — fail to check. -/
 theorem template_decisions : tableDecision = closedDecision := decision_eq
 
+/-! ### `required` is decided on the JSON name, wherever the list is written -/
+
+/-- The parser's final `required` flag of the member: listed (in the own `required` list, in an
+allOf sibling item that carries only `required`, or on the schema owning the allOf) and not
+relaxed by `--force-optional` / `--use-default`. All three code paths compare the ORIGINAL name. -/
+theorem required_from_original_name (v : Vec) :
+    (fromSchema v).required = (v.inreq && !(v.opts.fo || (v.opts.ud && v.dflt.given))) := by
+  have hl := Vec.listed_eq v
+  show v.finalRequired = _
+  simp only [Vec.finalRequired, hl]
+  cases v.inreq <;> cases v.opts.fo <;> cases (v.opts.ud && v.dflt.given) <;> rfl
+
+/-- The `required` flag does not depend on whether the JSON name is a plain identifier, needs an
+alias (`foo-bar`), is a keyword (`class`) or is renamed by `--snake-case-field` (`fooBar`). -/
+theorem required_independent_of_renaming (v : Vec) (name' : NameKind) (sc' : Bool) :
+    (fromSchema { v with name := name', sc := sc' }).required = (fromSchema v).required := by
+  rw [required_from_original_name, required_from_original_name]
+
+/-- … nor on which of the three places lists the name. -/
+theorem required_independent_of_where_listed (v : Vec) (via' : Via) :
+    (fromSchema { v with via := via' }).required = (fromSchema v).required := by
+  rw [required_from_original_name, required_from_original_name]
+
+/-- non-vacuity: a keyword-named member listed through an allOf sibling is required, and so is its plain twin -/
+example : (fromSchema ⟨.v2, .no, true, .none, .scalar, false, ⟨false, false, false, false, false, false⟩, .sibling, .keyword, false⟩).required = true ∧
+    (fromSchema ⟨.v2, .no, true, .none, .scalar, false, ⟨false, false, false, false, false, false⟩, .own, .plain, false⟩).required = true := by decide
+
+/-- The rendered consequence for every kind that can be executed: a listed member without default
+and without null in its schema must be supplied whatever its name looks like and wherever it is
+listed (instance of `required_nonnullable_must_supply` below, stated for the renamed vectors). -/
+example : (sem ⟨.td, .no, true, .none, .scalar, false, ⟨false, false, false, false, false, false⟩, .sibling, .alias, false⟩).mustSupply = true := by decide
+
 /-! ### Clause 1 — a member listed in `required` and without default must be supplied -/
 
 /-- FULL STRENGTH (false on the pinned tree, see `required_nodefault_must_supply_refuted`). -/
@@ -45,7 +79,7 @@ def required_nodefault_must_supply_full : Prop :=
 
 /-- D7, concretely: pydantic-v2 output for a required member of type `["string","null"]` with all
 options off is `n: Optional[str] = None` — it need not be supplied. -/
-def d7Witness : Vec := ⟨.v2, .typelist, true, .none, .scalar, false, ⟨false, false, false, false, false, false⟩⟩
+def d7Witness : Vec := ⟨.v2, .typelist, true, .none, .scalar, false, ⟨false, false, false, false, false, false⟩, .own, .plain, false⟩
 
 theorem d7_witness :
     d7Witness.valid = true ∧ render d7Witness = ⟨true, false, .no, .lit .none⟩ ∧
@@ -84,7 +118,7 @@ theorem required_nonnullable_must_supply (v : Vec) (hv : v.valid = true)
 /-- non-vacuity: a required nullable member outside the excluded families (dataclass) -/
 example : ∃ v : Vec, v.valid = true ∧ v.inreq = true ∧ v.dflt = .none ∧ v.opts.fo = false ∧
     v.admitsNull = true ∧ (d7 v || d7m v || v1Bare v) = false :=
-  ⟨⟨.dc, .typelist, true, .none, .scalar, false, ⟨false, false, false, false, false, false⟩⟩, by decide⟩
+  ⟨⟨.dc, .typelist, true, .none, .scalar, false, ⟨false, false, false, false, false, false⟩, .own, .plain, false⟩, by decide⟩
 
 /-! ### Clause 2 — a non-required member may be omitted and then reads as None / absent -/
 
@@ -95,7 +129,7 @@ def optional_omittable_reads_default_full : Prop :=
     (sem v).mustSupply = false ∧ (v.dflt.isNone = true → (sem v).omitted.noneOrAbsent = true)
 
 /-- `--strip-default-none`, pydantic v2, optional string without default: `n: Optional[str]` — required in pydantic 2. -/
-def stripWitness : Vec := ⟨.v2, .no, false, .none, .scalar, false, ⟨false, false, false, true, false, false⟩⟩
+def stripWitness : Vec := ⟨.v2, .no, false, .none, .scalar, false, ⟨false, false, false, true, false, false⟩, .own, .plain, false⟩
 
 theorem strip_witness :
     stripWitness.valid = true ∧ stripWitness.omittable = true ∧
@@ -124,7 +158,7 @@ theorem optional_omittable_reads_default_partial (v : Vec) (hv : v.valid = true)
     exact noneReads v hv ho hn hx
 
 example : ∃ v : Vec, v.valid = true ∧ v.omittable = true ∧ v.opts.sd = true ∧ stripped v = false :=
-  ⟨⟨.ms, .no, false, .none, .scalar, false, ⟨false, false, false, true, false, false⟩⟩, by decide⟩
+  ⟨⟨.ms, .no, false, .none, .scalar, false, ⟨false, false, false, true, false, false⟩, .own, .plain, false⟩, by decide⟩
 
 /-! ### Clause 3 — when a default is given, the omitted member reads as that default -/
 
@@ -136,7 +170,7 @@ def default_value_class_preserved_full : Prop :=
     (sem v).loads = true ∧ (sem v).omitted = .value v.dflt
 
 /-- TypedDict cannot carry a default: `n: NotRequired[str]`, the omitted member is absent. -/
-def tdDefaultWitness : Vec := ⟨.td, .no, false, .str, .scalar, false, ⟨false, false, false, false, false, false⟩⟩
+def tdDefaultWitness : Vec := ⟨.td, .no, false, .str, .scalar, false, ⟨false, false, false, false, false, false⟩, .own, .plain, false⟩
 
 theorem td_default_witness :
     tdDefaultWitness.valid = true ∧ render tdDefaultWitness = ⟨false, true, .no, .none⟩ ∧
@@ -144,7 +178,7 @@ theorem td_default_witness :
 
 /-- msgspec: a non-empty list default is written as a literal (`n: Optional[List[str]] = ['a']`),
 which msgspec refuses when the Struct class is created. -/
-def msListWitness : Vec := ⟨.ms, .no, false, .listN, .array, false, ⟨false, false, false, false, false, false⟩⟩
+def msListWitness : Vec := ⟨.ms, .no, false, .listN, .array, false, ⟨false, false, false, false, false, false⟩, .own, .plain, false⟩
 
 theorem ms_list_witness :
     msListWitness.valid = true ∧ render msListWitness = ⟨true, false, .no, .lit .listN⟩ ∧
@@ -171,7 +205,7 @@ theorem default_value_class_preserved_partial (v : Vec) (hv : v.valid = true)
 
 example : ∃ v : Vec, v.valid = true ∧ v.omittable = true ∧ v.dflt = .dictN ∧
     (tdNoDefaults v || msMutableLiteral v) = false :=
-  ⟨⟨.v2, .no, true, .dictN, .object, false, ⟨false, true, false, false, false, false⟩⟩, by decide⟩
+  ⟨⟨.v2, .no, true, .dictN, .object, false, ⟨false, true, false, false, false, false⟩, .own, .plain, false⟩, by decide⟩
 
 /-! ### Clause 4 — a list/dict default is not shared between instances -/
 
@@ -203,7 +237,7 @@ theorem dataclass_mutable_default_uses_factory (v : Vec) (hv : v.valid = true)
   dcFactory v hv ho hd hk hd
 
 example : ∃ v : Vec, v.valid = true ∧ v.omittable = true ∧ v.kind = .dc ∧ v.dflt = .listN :=
-  ⟨⟨.dc, .no, false, .listN, .array, true, ⟨false, false, false, false, false, true⟩⟩, by decide⟩
+  ⟨⟨.dc, .no, false, .listN, .array, true, ⟨false, false, false, false, false, true⟩, .own, .plain, false⟩, by decide⟩
 
 /-! ### Clause 5 — a member whose schema admits null accepts null -/
 
@@ -212,42 +246,51 @@ def nullable_accepts_null_full : Prop :=
   ∀ v : Vec, v.valid = true → v.admitsNull = true → (sem v).acceptsNull = true
 
 /-- OpenAPI `nullable: true` on a required member without `--strict-nullable`: `n: str`. -/
-def flagWitness : Vec := ⟨.v2, .flag, true, .none, .scalar, false, ⟨false, false, false, false, false, false⟩⟩
+def flagWitness : Vec := ⟨.v2, .flag, true, .none, .scalar, false, ⟨false, false, false, false, false, false⟩, .own, .plain, false⟩
 
 theorem flag_witness :
     flagWitness.valid = true ∧ render flagWitness = ⟨false, false, .no, .none⟩ ∧
     (sem flagWitness).acceptsNull = false ∧ nullableFlagIgnored flagWitness = true := by decide
 
 /-- `--strict-nullable`, required member of type `["array","null"]`: `n: List[str]`. -/
-def strictArrayWitness : Vec := ⟨.v2, .typelist, true, .none, .array, false, ⟨true, false, false, false, false, false⟩⟩
+def strictArrayWitness : Vec := ⟨.v2, .typelist, true, .none, .array, false, ⟨true, false, false, false, false, false⟩, .own, .plain, false⟩
 
 theorem strict_array_witness :
     strictArrayWitness.valid = true ∧ render strictArrayWitness = ⟨false, false, .no, .none⟩ ∧
     (sem strictArrayWitness).acceptsNull = false ∧ strictOverridesTypeList strictArrayWitness = true := by decide
 
 /-- TypedDict, non-required member of type `["array","null"]`: `n: NotRequired[List[str]]`. -/
-def tdArrayWitness : Vec := ⟨.td, .typelist, false, .none, .array, false, ⟨false, false, false, false, false, false⟩⟩
+def tdArrayWitness : Vec := ⟨.td, .typelist, false, .none, .array, false, ⟨false, false, false, false, false, false⟩, .own, .plain, false⟩
 
 theorem td_array_witness :
     tdArrayWitness.valid = true ∧ render tdArrayWitness = ⟨false, true, .no, .none⟩ ∧
     (sem tdArrayWitness).acceptsNull = false ∧ tdNoFallback tdArrayWitness = true := by decide
+
+/-- `--strict-nullable`, OpenAPI `nullable: true` array member listed through an allOf sibling
+item: `nullable` was computed while the member was not yet required — `n: List[str]`. -/
+def lateWitness : Vec := ⟨.v2, .flag, true, .none, .array, false, ⟨true, false, false, false, false, false⟩, .sibling, .plain, false⟩
+
+theorem late_witness :
+    lateWitness.valid = true ∧ render lateWitness = ⟨false, false, .no, .none⟩ ∧
+    (sem lateWitness).acceptsNull = false ∧ lateStrictNullable lateWitness = true ∧
+    (sem { lateWitness with via := .own }).acceptsNull = true := by decide
 
 theorem nullable_accepts_null_refuted : ¬ nullable_accepts_null_full := by
   intro h
   have := h flagWitness (by decide) (by decide)
   revert this; decide
 
-/-- A member whose schema admits null rejects None EXACTLY in three families (`nullable: true`
+/-- A member whose schema admits null rejects None EXACTLY in four families (`nullable: true`
 ignored without strict-nullable; strict-nullable overriding an array's type list; TypedDict
-not-required members never falling back to `Optional`), pydantic v1's "None default ⇒ None
+not-required members never falling back to `Optional`; a member made required only after its field object was built losing `nullable` under strict-nullable), pydantic v1's "None default ⇒ None
 allowed" aside. -/
 theorem nullable_accepts_null_exact (v : Vec) (hv : v.valid = true) (hn : v.admitsNull = true) :
     (sem v).acceptsNull = false ↔
-      ((nullableFlagIgnored v || strictOverridesTypeList v || tdNoFallback v) && !v1NoneDefault v) = true :=
+      ((nullableFlagIgnored v || strictOverridesTypeList v || tdNoFallback v || lateStrictNullable v) && !v1NoneDefault v) = true :=
   nullExact v hv hn
 
 theorem nullable_accepts_null_partial (v : Vec) (hv : v.valid = true) (hn : v.admitsNull = true)
-    (hx : (nullableFlagIgnored v || strictOverridesTypeList v || tdNoFallback v) = false) :
+    (hx : (nullableFlagIgnored v || strictOverridesTypeList v || tdNoFallback v || lateStrictNullable v) = false) :
     (sem v).acceptsNull = true := by
   cases ha : (sem v).acceptsNull
   · have := (nullable_accepts_null_exact v hv hn).mp ha
@@ -255,8 +298,8 @@ theorem nullable_accepts_null_partial (v : Vec) (hv : v.valid = true) (hn : v.ad
   · rfl
 
 example : ∃ v : Vec, v.valid = true ∧ v.admitsNull = true ∧ v.opts.sn = true ∧
-    (nullableFlagIgnored v || strictOverridesTypeList v || tdNoFallback v) = false :=
-  ⟨⟨.v2, .flag, true, .none, .array, false, ⟨true, false, false, false, false, false⟩⟩, by decide⟩
+    (nullableFlagIgnored v || strictOverridesTypeList v || tdNoFallback v || lateStrictNullable v) = false :=
+  ⟨⟨.v2, .flag, true, .none, .array, false, ⟨true, false, false, false, false, false⟩, .own, .plain, false⟩, by decide⟩
 
 /-! ### Clause 6 — a required nullable member stays required -/
 
@@ -279,14 +322,14 @@ theorem required_nullable_stays_required_partial (v : Vec) (hv : v.valid = true)
   · rfl
 
 /-- msgspec counterpart of D7: `n: Optional[str] = None` for the same input. -/
-def d7mWitness : Vec := ⟨.ms, .typelist, true, .none, .scalar, false, ⟨false, false, false, false, false, false⟩⟩
+def d7mWitness : Vec := ⟨.ms, .typelist, true, .none, .scalar, false, ⟨false, false, false, false, false, false⟩, .own, .plain, false⟩
 
 theorem d7m_witness :
     d7mWitness.valid = true ∧ render d7mWitness = ⟨true, false, .no, .lit .none⟩ ∧
     (sem d7mWitness).mustSupply = false ∧ d7m d7mWitness = true := by decide
 
 /-- pydantic v1 for the same input: `n: Optional[str]`, which pydantic 1 does not require. -/
-def v1BareWitness : Vec := ⟨.v1, .typelist, true, .none, .scalar, false, ⟨false, false, false, false, false, false⟩⟩
+def v1BareWitness : Vec := ⟨.v1, .typelist, true, .none, .scalar, false, ⟨false, false, false, false, false, false⟩, .own, .plain, false⟩
 
 theorem v1_bare_witness :
     v1BareWitness.valid = true ∧ render v1BareWitness = ⟨true, false, .no, .none⟩ ∧
@@ -294,7 +337,7 @@ theorem v1_bare_witness :
 
 /-- the one combination in which the generator does mark a nullable member as required for
 pydantic: OpenAPI `nullable: true` under `--strict-nullable` gives `n: Optional[str] = Field(...)` -/
-example : render ⟨.v1, .flag, true, .none, .scalar, false, ⟨true, false, false, false, false, false⟩⟩ =
+example : render ⟨.v1, .flag, true, .none, .scalar, false, ⟨true, false, false, false, false, false⟩, .own, .plain, false⟩ =
     ⟨true, false, .no, .fieldReq⟩ := by decide
 
 /-! ### Member order — the class must exist before any clause can hold
@@ -302,10 +345,10 @@ example : render ⟨.v1, .flag, true, .none, .scalar, false, ⟨true, false, fal
 `DataClass.__init__` / `Struct.__init__` sort the members stably by `_has_field_assignment`
 (`False` first); Python's dataclasses and msgspec refuse a member without default after one with. -/
 
-/-- dataclasses: the sort key says "has a default" exactly when the template writes ` = …`, for
+/-- dataclasses: the sort key says "has a default" exactly when the template writes a default, for
 every vector — so after sorting no member without default follows one with a default. -/
 theorem dataclass_sort_key_matches_rendering (v : Vec) (hv : v.valid = true) (hk : v.kind = .dc) :
-    sortKey v.kind (fromSchema v) = some ((render v).asg != .none) := by
+    sortKey v.kind (fromSchema v) = some (render v).asg.default?.isSome := by
   have h := sortKeyExact v hv
   have hm : msKeyMismatchR v.reduce = false := by
     have hk' : v.reduce.kind = .dc := hk
@@ -319,14 +362,14 @@ theorem dataclass_sort_key_matches_rendering (v : Vec) (hv : v.valid = true) (hk
 stripped): there a member rendered with ` = None` is sorted among the members without default,
 and msgspec refuses the Struct when a required member follows it. -/
 theorem msgspec_sort_key_exact (v : Vec) (hv : v.valid = true) (hk : v.kind = .ms) :
-    sortKey v.kind (fromSchema v) = some ((render v).asg != .none) ↔ msKeyMismatch v = false := by
+    sortKey v.kind (fromSchema v) = some (render v).asg.default?.isSome ↔ msKeyMismatch v = false := by
   have h := sortKeyExact v hv
   cases hs : sortKey v.kind (fromSchema v) with
   | none => rw [hk] at hs; simp [sortKey] at hs
   | some b =>
     constructor
     · intro he
-      have hb : b = ((render v).asg != .none) := Option.some.inj he
+      have hb : b = (render v).asg.default?.isSome := Option.some.inj he
       exact (h b hs).mp hb
     · intro hm
       rw [(h b hs).mpr hm]; rfl
